@@ -20,6 +20,7 @@ FLOORS = {"nontrivial": 0.5}
 budget = c05.budget
 strategy = c05.strategy
 shrink_candidates = c05.shrink_candidates
+directed_cases = c05.directed_cases
 
 
 def run_case(case):
